@@ -166,7 +166,7 @@ fn work_case(case: &Value) -> Value {
 
 fn worker() {
     // a runaway search must end as an observable death of the child, not exhaust the machine
-    let lim = libc::rlimit { rlim_cur: 6 << 30, rlim_max: 6 << 30 };
+    let lim = libc::rlimit { rlim_cur: 3 << 30, rlim_max: 3 << 30 };
     // SAFETY: plain syscall with a valid struct
     unsafe { libc::setrlimit(libc::RLIMIT_AS, &lim) };
     let stdin = std::io::stdin();
